@@ -87,6 +87,7 @@ fn base_leaf(c: &Cfg) -> &'static str {
     match c {
         Cfg::Mem => "mem",
         Cfg::Phys => "phys",
+        Cfg::Emb => "emb",
         Cfg::Alt(i, _) => base_leaf(i),
         Cfg::Ovl(ls) => base_leaf(&ls[0]),
         Cfg::OvlSub(i, _) => base_leaf(i),
